@@ -123,6 +123,17 @@ func Run(c *core.Ctx) int {
 				break
 			}
 		}
+		// the document with its included tax removed is a calculated document as well
+		if a, ok := calcproto.AfterRemoval(inv); ok {
+			if calcproto.TooLargeForRemoval(inv) || calcproto.OutsideExactDomain(a) {
+				c.Count("after-removal:skipped-outside-2^52-domain", 1)
+			} else {
+				c.Count("after-removal", 1)
+				if errs := calcproto.ReaddIdentities(a, sub); len(errs) > 0 {
+					c.Fail("", "after RemoveIncludedTaxes the presented figures do not re-add: "+strings.Join(errs, "; "), c01.Case{Doc: d})
+				}
+			}
+		}
 		if r.Agree && r.Skipped == "" && r.GoErr == "" && r.GoOut != r.Model {
 			c.TieBroken("drive:C03/calc", "Go output differs from the model although the identities hold", c01.Case{Doc: d})
 		}
